@@ -24,9 +24,11 @@ def distalCount (t : Table) (syn : List Int) (n : Int) : Nat := (syn.filter fun 
 /-- Number of synapses in the same tree as `n`. -/
 def treeCount (t : Table) (syn : List Int) (n : Int) : Nat := (syn.filter fun s => sameTree t s n).length
 
-/-- The "total" the formulas subtract from: per tree (navis-fastcore, and what the path-count
-definition demands: there is no path between different trees) or over the whole table (the pure
-Python code: `len(post_node_ids)`). -/
+/-- The "total" the formulas subtract from.  `perTree = true` is what navis computes (navis-fastcore
+and, since the `fix:` commits for C17, the pure-Python paths of `synapse_flow_centrality` and
+`flow_centrality`: totals per connected component) and what the path-count definition demands: there
+is no path between different trees.  `perTree = false` (whole table, `len(post_node_ids)`) is the
+historical pre-fix Python formula, kept only to document the difference. -/
 def total (t : Table) (perTree : Bool) (syn : List Int) (n : Int) : Nat :=
   if perTree then treeCount t syn n else syn.length
 
@@ -123,7 +125,7 @@ def chainSeed (t : Table) : Nat → Int → Int
     | [c] => chainSeed t fuel c
     | _ => i
 
-/-- Value before the fork rule: only branch points are computed; a segment inherits the value of its
+/-- Value before the fork rule (navis uses `pt = true`: leaf totals per tree): only branch points are computed; a segment inherits the value of its
 distal seed (a leaf seeds 0). -/
 def fcPre (t : Table) (pt : Bool) (n : Int) : Nat :=
   let s := chainSeed t (t.length + 1) n
